@@ -245,23 +245,36 @@ where
     if let Ex::F(f) = cur {
         *steps += 1;
         match serde_json::to_string(f) {
-            Ok(js) => match serde_json::from_str::<FlatEx<T, T::OF, T::LM>>(&js) {
-                Ok(back) => {
-                    if back.var_names() != names.as_slice() || back.unparse() != text {
-                        bad.push((format!("{}:serde-changes-expression", T::NAME), format!("serde round trip of {text:?} gives {:?} with variables {:?}", back.unparse(), back.var_names())));
-                    } else {
-                        for (p, v) in pts.iter().zip(&vals) {
-                            if let (Ok(a), Ok(b)) = (v, back.eval(p)) {
-                                if !T::same(a, &b) {
-                                    bad.push((format!("{}:serde-changes-value", T::NAME), format!("serde round trip of {text:?} evaluates to {b:?} instead of {a:?}")));
-                                    break;
+            Ok(js) => {
+                // three ways a deserializer hands over the string: borrowed from the input
+                // (from_str), transient (from_reader), owned (from_value)
+                type Fx<T> = FlatEx<T, <T as Dom>::OF, <T as Dom>::LM>;
+                let routes: [(&str, Result<Fx<T>, String>); 3] = [
+                    ("from_str", serde_json::from_str::<Fx<T>>(&js).map_err(|e| e.to_string())),
+                    ("from_reader", serde_json::from_reader::<_, Fx<T>>(js.as_bytes()).map_err(|e| e.to_string())),
+                    ("from_value", serde_json::to_value(f).map_err(|e| e.to_string()).and_then(|v| serde_json::from_value::<Fx<T>>(v).map_err(|e| e.to_string()))),
+                ];
+                for (route, r) in routes {
+                    *steps += 1;
+                    match r {
+                        Ok(back) => {
+                            if back.var_names() != names.as_slice() || back.unparse() != text {
+                                bad.push((format!("{}:serde-changes-expression", T::NAME), format!("serde round trip ({route}) of {text:?} gives {:?} with variables {:?}", back.unparse(), back.var_names())));
+                            } else {
+                                for (p, v) in pts.iter().zip(&vals) {
+                                    if let (Ok(a), Ok(b)) = (v, back.eval(p)) {
+                                        if !T::same(a, &b) {
+                                            bad.push((format!("{}:serde-changes-value", T::NAME), format!("serde round trip ({route}) of {text:?} evaluates to {b:?} instead of {a:?}")));
+                                            break;
+                                        }
+                                    }
                                 }
                             }
                         }
+                        Err(e) => bad.push((format!("{}:serde-deserialize-failed:{route}", T::NAME), format!("{text:?} serialises to {js} which does not deserialise ({route}): {e}"))),
                     }
                 }
-                Err(e) => bad.push((format!("{}:serde-deserialize-failed", T::NAME), format!("{text:?} serialises to {js} which does not deserialise: {e}"))),
-            },
+            }
             Err(e) => bad.push((format!("{}:serde-serialize-failed", T::NAME), format!("{text:?}: {e}"))),
         }
     }
@@ -376,14 +389,14 @@ pub fn replay(case: &Value) -> i32 {
 
 pub fn run(tier: Tier) -> i32 {
     let mut rep = Report::new("C12", tier);
-    rep.rule = "explicit-state exploration: state = expression reached by parse + up to k transformations from {convert flat<->deep, operate_unary, operate_binary with a pool, subs, partial}; in every state: a parsed FlatEx prints its source text; the printed text parses back (same form) with the same variables and the same value, iterated to the fixpoint of unparse->parse; serde_json round trip of every flat expression; data types: symbolic (total Debug/FromStr round trip) and f64 restricted to plain-decimal printed literals; distinct = unique structural dumps; non-trivial = at least one transformation".into();
+    rep.rule = "explicit-state exploration: state = expression reached by parse + up to k transformations from {convert flat<->deep, operate_unary, operate_binary with a pool, subs, partial}; in every state: a parsed FlatEx prints its source text; the printed text parses back (same form) with the same variables and the same value, iterated to the fixpoint of unparse->parse; serde_json round trip of every flat expression through from_str, from_reader and from_value (variable names that need JSON escapes included); data types: symbolic (total Debug/FromStr round trip) and f64 restricted to plain-decimal printed literals; distinct = unique structural dumps; non-trivial = at least one transformation".into();
     rep.assumptions = vec!["f64 states whose printed text contains an exponent or non-finite literal are excluded by the statement and counted as terminal".into()];
     install_panic_hook();
     let k = if tier.thorough() { 5 } else { 4 };
-    let sym_texts: Vec<&'static str> = vec!["x", "1", "x+y", "x*1-y", "f(x)", "-x^2", "sin(x+1)*y", "x mx y", "mx(x,1)/y", "{a b}+C", "--x", "f sin x", "(x+1)*(y-2)", "x/y/2", "1+2+x+3", "ln(x)^y"];
+    let sym_texts: Vec<&'static str> = vec!["x", "1", "x+y", "x*1-y", "f(x)", "-x^2", "sin(x+1)*y", "x mx y", "mx(x,1)/y", "{a b}+C", "--x", "f sin x", "(x+1)*(y-2)", "x/y/2", "1+2+x+3", "ln(x)^y", "{a\"b}+x", "{a\\b}*{tab\there}"];
     let m = RoundTrip::<Sym> { texts: Arc::new(sym_texts), pool: Arc::new(vec!["y", "1", "x*2", "f(z)"]), uns: vec!["-", "f", "sin"], bins: vec!["+", "-", "/", "mx"], max_len: k, _t: Default::default() };
     explore(m, &mut rep, "c12", "symbolic");
-    let f_texts: Vec<&'static str> = vec!["x", "1.5", "x+y", "x*0.5-y", "sin(x)", "-x^2", "sin(x+1)*y", "max(x,1)/y", "{a b}+PI", "--x", "cos sin x", "(x+1)*(y-2)", "x/y/2", "1+2+x+3", "ln(x)^y", "x min y", "atan2(x,y)+e"];
+    let f_texts: Vec<&'static str> = vec!["x", "1.5", "x+y", "x*0.5-y", "sin(x)", "-x^2", "sin(x+1)*y", "max(x,1)/y", "{a b}+PI", "--x", "cos sin x", "(x+1)*(y-2)", "x/y/2", "1+2+x+3", "ln(x)^y", "x min y", "atan2(x,y)+e", "{a\"b}+x", "{a\\b}*{tab\there}"];
     let m = RoundTrip::<f64> { texts: Arc::new(f_texts), pool: Arc::new(vec!["y", "2", "x*0.5", "cos(z)"]), uns: vec!["-", "sqrt", "sin"], bins: vec!["+", "-", "/", "^", "max"], max_len: k, _t: Default::default() };
     explore(m, &mut rep, "c12", "f64");
     rep.finish()
